@@ -443,13 +443,29 @@ Fixpoint once_walk (fuel: nat) (has_gp: bool) (p nd: node) : M once_res :=
           ic <- coordA inner ;;
           pc <- coordA p ;;
           let inner1 := match ic with None => set_coord pc inner | Some _ => inner end in
-          iq <- getA a_quals inner1 ;;
+          iq0 <- getA a_quals inner1 ;;
+          (* outer_quals = [q for q in (parent.quals or []) if q not in node.type.quals]; node.type.quals[:0] = outer_quals *)
+          pq <- getA a_quals p ;;
+          let pql := match pq with VList l => l | _ => [] end in
+          iq <- (match pql with
+                 | [] => ret iq0
+                 | _ =>
+                   match iq0 with
+                   | VList il =>
+                     let outer := filter (fun q => match q with
+                                                   | VStr qs => negb (existsb (fun e => match e with VStr x => str_eqb qs x | _ => false end) il)
+                                                   | _ => true end) pql in
+                     ret (VList (outer ++ il))
+                   | _ => crash CK_Type
+                   end
+                 end) ;;
+          inner1b <- (match pql with [] => ret inner1 | _ => setA a_quals iq inner1 end) ;;
           match str_in_vlist s_Atomic iq with
           | None => crash CK_Type
-          | Some true => ret (OR_replace inner1)
+          | Some true => ret (OR_replace inner1b)
           | Some false =>
             iq' <- lift_opt CK_Attribute (vlist_append (VStr s_Atomic) iq) ;;
-            inner2 <- setA a_quals iq' inner1 ;;
+            inner2 <- setA a_quals iq' inner1b ;;
             ret (OR_replace inner2)
           end
       | Some false =>
